@@ -146,8 +146,10 @@ class SymbolCodePrinter(StrPrinter):  # type: ignore[misc]
         # a reciprocal in the denominator is itself printed as a quotient: a / (1 / x)
         quotient_in_denom = (denom.is_Pow and denom.is_commutative and
             (denom.exp is S.NegativeOne or -denom.exp is S.Half))
+        # a rational number is itself printed as a quotient: a / (1/2)
+        rational_denom = denom.is_Rational and not denom.is_Integer
         sdenom_str = f"({sdenom})" if needs_mul_brackets(denom, first=False,
-            last=True) or mul_in_denom or quotient_in_denom or _is_product_or_quotient(sdenom) else sdenom
+            last=True) or mul_in_denom or quotient_in_denom or rational_denom or _is_product_or_quotient(sdenom) else sdenom
         tex = f"{snumer_str} / {sdenom_str}"
         return tex
 
